@@ -394,6 +394,7 @@ type TestScript struct {
 	stdinPty      bool              // connect pty to standard input; set by 'ttyin -stdin' command
 	ttyout        string            // terminal output; for 'ttyout' command
 	stopped       bool              // test wants to stop early
+	failed        bool              // a line has failed; with ContinueOnError the run goes on but must still fail
 	start         time.Time         // time phase started
 	background    []backgroundCmd   // backgrounded 'exec' and 'go' commands
 	deferred      func()            // deferred cleanup actions.
@@ -647,6 +648,7 @@ func (ts *TestScript) run() {
 		ok := ts.runLine(line)
 		if !ok {
 			failed = true
+			ts.failed = true
 			lastBlockFailed = true
 			if ts.params.ContinueOnError {
 				verbose = true
